@@ -15,6 +15,7 @@ import (
 	"runtime"
 	"sort"
 	"strings"
+	"sync"
 	"time"
 
 	"database/sql/driver"
@@ -139,11 +140,14 @@ func runOne(p Program, x *mc.Exec, keepLog bool) *outcome {
 	}
 
 	bodies := make([]func(), len(p.Threads))
+	var wg sync.WaitGroup // real synchronisation: orders the finalisation and the oracle after the threads
+	wg.Add(len(p.Threads))
 	for ti := range p.Threads {
 		ti := ti
 		prog := p.Threads[ti]
 		key := fmt.Sprintf("k%d", ti)
 		bodies[ti] = func() {
+			defer wg.Done()
 			val := int64(100 * (ti + 1))
 			for i := 0; i < len(prog); i++ {
 				fakedb.BeginOp()
@@ -206,7 +210,14 @@ func runOne(p Program, x *mc.Exec, keepLog bool) *outcome {
 	// finalisation (default schedule, not part of the explored choices): close the
 	// cache(s) under the scheduler so that the closer goroutines are managed and
 	// run to completion deterministically, then look for leaked driver statements.
-	if !out.sch.Deadlock && !out.sch.Overrun {
+	panicked := false
+	for _, t := range out.sch.Threads {
+		if t.Panic != nil {
+			panicked = true
+		}
+	}
+	if !out.sch.Deadlock && !out.sch.Overrun && !panicked {
+		wg.Wait()
 		fin := mc.NewExec(nil)
 		f := sched.RunAfter(out.sch, fin, 4000, false, func() {
 			if p.SessionMode {
